@@ -1,1 +1,298 @@
-// harness bodies compiled inside quinn-proto/src/frame.rs (feature __verif-hooks)
+// Harness bodies for quinn-proto/src/frame.rs.
+
+const V62: u64 = 1 << 62;
+
+static mut WIRE: [u8; 64] = [0; 64];
+
+/// Wire bytes as a `Bytes` backed by static storage: no allocation, no reference counting, so
+/// `frame::Iter` (which insists on `Bytes`) stays within reach of the SAT back end.
+fn wire(buf: &[u8]) -> Bytes {
+    assert!(buf.len() <= 64);
+    unsafe {
+        let w = &mut *core::ptr::addr_of_mut!(WIRE);
+        w[..buf.len()].copy_from_slice(buf);
+        Bytes::from_static(&w[..buf.len()])
+    }
+}
+
+fn vi(x: u64) -> VarInt {
+    unsafe { VarInt::from_u64_unchecked(x) }
+}
+
+/// C03.b: `scan_ack_blocks` + `AckIter` on arbitrary bytes: no panic for any buffer (<= 12 bytes),
+/// any `largest` < 2^62 and up to 3 announced extra blocks; when the scan accepts, iterating the
+/// accepted bytes cannot underflow, yields exactly n+1 descending, disjoint, non-adjacent ranges
+/// at or below `largest`, and then ends.
+pub fn ack_scan_and_iter(buf: [u8; 12], len: usize, largest: u64, n: u8, small: bool) -> u32 {
+    if len > 12 || largest >= V62 || n > 3 {
+        return 0;
+    }
+    if small {
+        // one-byte varints only (every field < 64): all field positions are concrete.
+        // (written without a loop: the harness unwind bound stays small, which matters because
+        // every `Buf::copy_to_slice` in the decoders is a loop that CBMC unwinds to the bound)
+        let b = &buf;
+        if (b[0] | b[1] | b[2] | b[3] | b[4] | b[5] | b[6] | b[7] | b[8] | b[9] | b[10] | b[11]) >= 0x40 {
+            return 0;
+        }
+    }
+    let data = &buf[..len];
+    let Ok(used) = scan_ack_blocks(data, largest, n as usize) else { return 2 };
+    assert!(used <= len && used >= 1 + 2 * n as usize);
+    let mut it = AckIter::new(largest, &data[..used]);
+    let mut prev_start: Option<u64> = None;
+    let mut count = 0u8;
+    let mut k = 0;
+    while k < 5 {
+        k += 1;
+        let Some(r) = it.next() else { break };
+        let (s, e) = (*r.start(), *r.end());
+        assert!(s <= e && e <= largest);
+        if let Some(p) = prev_start {
+            // gap of at least one unacknowledged packet between consecutive ranges
+            assert!(e + 2 <= p);
+        } else {
+            assert!(e == largest);
+        }
+        prev_start = Some(s);
+        count += 1;
+    }
+    assert!(count == n + 1);
+    assert!(it.next().is_none());
+    1 | (if n > 0 { 4 } else { 0 })
+}
+
+/// C10: ACK ranges written with the encoder's arithmetic (first block, then (gap, block) pairs)
+/// are read back identically by scan_ack_blocks + AckIter, for up to 3 ranges anywhere below 2^62.
+pub fn ack_blocks_roundtrip(largest: u64, first_len: u64, gap1: u64, len1: u64, gap2: u64, len2: u64, n: u8) -> u32 {
+    if n > 2 || largest >= V62 || first_len >= V62 || gap1 >= V62 || len1 >= V62 || gap2 >= V62 || len2 >= V62 {
+        return 0;
+    }
+    // ranges: [s0, largest], [s1, e1], [s2, e2] (inclusive), descending
+    if first_len > largest {
+        return 0;
+    }
+    let s0 = largest - first_len;
+    let mut buf = [0u8; 48];
+    let mut w = &mut buf[..];
+    w.write_var(first_len);
+    let mut expect = [(s0, largest), (0, 0), (0, 0)];
+    let mut low = s0;
+    if n >= 1 {
+        if gap1 + 2 > low || len1 > low - gap1 - 2 {
+            return 0;
+        }
+        let e1 = low - gap1 - 2;
+        let s1 = e1 - len1;
+        w.write_var(gap1);
+        w.write_var(len1);
+        expect[1] = (s1, e1);
+        low = s1;
+    }
+    if n >= 2 {
+        if gap2 + 2 > low || len2 > low - gap2 - 2 {
+            return 0;
+        }
+        let e2 = low - gap2 - 2;
+        let s2 = e2 - len2;
+        w.write_var(gap2);
+        w.write_var(len2);
+        expect[2] = (s2, e2);
+    }
+    let written = 48 - w.len();
+    let Ok(used) = scan_ack_blocks(&buf[..written], largest, n as usize) else { panic!("encoder output rejected by scan_ack_blocks") };
+    assert!(used == written);
+    let mut it = AckIter::new(largest, &buf[..used]);
+    let mut i = 0;
+    while i <= n as usize {
+        let Some(r) = it.next() else { panic!("too few ranges") };
+        assert!((*r.start(), *r.end()) == expect[i]);
+        i += 1;
+    }
+    assert!(it.next().is_none());
+    1 << n
+}
+
+/// Frame-type / flag packing.
+pub fn stream_type_bits(ty: u64) -> u32 {
+    let t = FrameType(ty);
+    match (t.stream(), t.datagram()) {
+        (Some(s), None) => {
+            assert!((0x08..=0x0f).contains(&ty));
+            assert!(s.fin() == (ty & 1 != 0) && s.len() == (ty & 2 != 0) && s.off() == (ty & 4 != 0));
+            1
+        }
+        (None, Some(d)) => {
+            assert!(ty == 0x30 || ty == 0x31);
+            assert!(d.len() == (ty & 1 != 0));
+            2
+        }
+        (None, None) => {
+            assert!(!(0x08..=0x0f).contains(&ty) && ty != 0x30 && ty != 0x31);
+            4
+        }
+        _ => panic!("a type cannot be both STREAM and DATAGRAM"),
+    }
+}
+
+fn finish_one(mut it: Iter) {
+    // nothing is left: the frame consumed exactly its encoding
+    assert!(it.next().is_none());
+    core::mem::forget(it);
+}
+
+/// C10: fixed-field frames: encode (with the real encoder where one exists, with the same
+/// primitives the sender uses otherwise) -> `frame::Iter` yields the same frame and consumes
+/// exactly the encoding.  `kind` is enumerated by the harness table (one obligation per frame type).
+pub fn fixed_frame_roundtrip(kind: u8, a: u64, b: u64, c: u64, d: u64, small: bool) -> u32 {
+    if a >= V62 || b >= V62 || c >= V62 || d >= V62 {
+        return 0;
+    }
+    if small && (a >= 64 || b >= 64 || c >= 64 || d >= 64) {
+        // one-byte varints only: all field positions are concrete
+        return 0;
+    }
+    let mut buf = [0u8; 40];
+    let mut w = &mut buf[..];
+    match kind {
+        0 => ResetStream { id: StreamId(a), error_code: vi(b), final_offset: vi(c) }.encode(&mut w),
+        1 => StopSending { id: StreamId(a), error_code: vi(b) }.encode(&mut w),
+        2 => { w.write(FrameType::MAX_DATA); w.write(vi(a)); }
+        3 => { w.write(FrameType::MAX_STREAM_DATA); w.write(StreamId(a)); w.write_var(b); }
+        4 => { w.write(if a & 1 == 0 { FrameType::MAX_STREAMS_BIDI } else { FrameType::MAX_STREAMS_UNI }); w.write_var(b); }
+        5 => { w.write(FrameType::DATA_BLOCKED); w.write_var(a); }
+        6 => { w.write(FrameType::STREAM_DATA_BLOCKED); w.write(StreamId(a)); w.write_var(b); }
+        7 => { w.write(if a & 1 == 0 { FrameType::STREAMS_BLOCKED_BIDI } else { FrameType::STREAMS_BLOCKED_UNI }); w.write_var(b); }
+        8 => { w.write(FrameType::RETIRE_CONNECTION_ID); w.write_var(a); }
+        9 => { w.write(if b & 1 == 0 { FrameType::PATH_CHALLENGE } else { FrameType::PATH_RESPONSE }); w.write(a | (c << 62)); }
+        10 => AckFrequency { sequence: vi(a), ack_eliciting_threshold: vi(b), request_max_ack_delay: vi(c), reordering_threshold: vi(d) }.encode(&mut w),
+        11 => { w.write(match a % 4 { 0 => FrameType::PADDING, 1 => FrameType::PING, 2 => FrameType::IMMEDIATE_ACK, _ => FrameType::HANDSHAKE_DONE }); }
+        _ => return 0,
+    }
+    let n = 40 - w.len();
+    let Ok(mut it) = Iter::new(wire(&buf[..n])) else { panic!("non-empty payload rejected") };
+    let Some(Ok(fr)) = it.next() else { panic!("encoder output rejected by frame::Iter") };
+    let ok = match (kind, &fr) {
+        (0, Frame::ResetStream(x)) => x.id == StreamId(a) && x.error_code == vi(b) && x.final_offset == vi(c),
+        (1, Frame::StopSending(x)) => x.id == StreamId(a) && x.error_code == vi(b),
+        (2, Frame::MaxData(x)) => *x == vi(a),
+        (3, Frame::MaxStreamData { id, offset }) => *id == StreamId(a) && *offset == b,
+        (4, Frame::MaxStreams { dir, count }) => (*dir == if a & 1 == 0 { Dir::Bi } else { Dir::Uni }) && *count == b,
+        (5, Frame::DataBlocked { offset }) => *offset == a,
+        (6, Frame::StreamDataBlocked { id, offset }) => *id == StreamId(a) && *offset == b,
+        (7, Frame::StreamsBlocked { dir, limit }) => (*dir == if a & 1 == 0 { Dir::Bi } else { Dir::Uni }) && *limit == b,
+        (8, Frame::RetireConnectionId { sequence }) => *sequence == a,
+        (9, Frame::PathChallenge(x)) => b & 1 == 0 && *x == a | (c << 62),
+        (9, Frame::PathResponse(x)) => b & 1 == 1 && *x == a | (c << 62),
+        (10, Frame::AckFrequency(x)) => x.sequence == vi(a) && x.ack_eliciting_threshold == vi(b) && x.request_max_ack_delay == vi(c) && x.reordering_threshold == vi(d),
+        (11, Frame::Padding) => a % 4 == 0,
+        (11, Frame::Ping) => a % 4 == 1,
+        (11, Frame::ImmediateAck) => a % 4 == 2,
+        (11, Frame::HandshakeDone) => a % 4 == 3,
+        _ => false,
+    };
+    assert!(ok);
+    // the frame type reported for the decoded frame is the one on the wire
+    assert!(fr.ty().0 == buf[0] as u64 || kind == 10);
+    core::mem::forget(fr);
+    finish_one(it);
+    1
+}
+
+/// C10 / C03.g: NEW_CONNECTION_ID round-trip for every CID length 1..=20 and every content.
+pub fn new_cid_roundtrip(sequence: u64, retire_prior_to: u64, cid: [u8; 20], len: usize, token: [u8; 16]) -> u32 {
+    if sequence >= V62 || retire_prior_to > sequence || len == 0 || len > 20 {
+        return 0;
+    }
+    let f = NewConnectionId { sequence, retire_prior_to, id: ConnectionId::new(&cid[..len]), reset_token: ResetToken::from(token) };
+    let mut buf = [0u8; 64];
+    let mut w = &mut buf[..];
+    f.encode(&mut w);
+    let n = 64 - w.len();
+    assert!(n <= NewConnectionId::SIZE_BOUND);
+    let Ok(mut it) = Iter::new(wire(&buf[..n])) else { panic!("rejected") };
+    let Some(Ok(Frame::NewConnectionId(g))) = it.next() else { panic!("NEW_CONNECTION_ID did not round-trip") };
+    assert!(g.sequence == sequence && g.retire_prior_to == retire_prior_to);
+    assert!(g.id.len() == len);
+    let mut i = 0;
+    while i < len {
+        assert!(g.id[i] == cid[i]);
+        i += 1;
+    }
+    let mut i = 0;
+    while i < 16 {
+        assert!(g.reset_token[i] == token[i]);
+        i += 1;
+    }
+    finish_one(it);
+    1 | (if len == 20 { 2 } else { 0 })
+}
+
+/// C10 / C01.f: STREAM frame metadata round-trip: `StreamMeta::encode` + payload -> `frame::Iter`
+/// for every (id, offset, fin), both length modes, payload <= 4 bytes.
+pub fn stream_roundtrip(id: u64, offset: u64, fin: bool, length: bool, data: [u8; 4], len: usize) -> u32 {
+    if id >= V62 || offset >= V62 - 4 || len > 4 {
+        return 0;
+    }
+    let meta = StreamMeta { id: StreamId(id), offsets: offset..offset + len as u64, fin };
+    let mut buf = [0u8; 40];
+    let mut w = &mut buf[..];
+    meta.encode(length, &mut w);
+    w.put_slice(&data[..len]);
+    let n = 40 - w.len();
+    assert!(n <= Stream::SIZE_BOUND + len);
+    let Ok(mut it) = Iter::new(wire(&buf[..n])) else { panic!("rejected") };
+    let Some(Ok(Frame::Stream(s))) = it.next() else { panic!("STREAM did not round-trip") };
+    assert!(s.id == StreamId(id) && s.offset == offset && s.fin == fin);
+    assert!(s.data.len() == len);
+    let mut i = 0;
+    while i < len {
+        assert!(s.data[i] == data[i]);
+        i += 1;
+    }
+    // frame type bits agree with the content
+    let ty = Frame::Stream(Stream { id: s.id, offset: s.offset, fin: s.fin, data: Bytes::new() }).ty().0;
+    assert!(ty & 1 == fin as u64 && (ty & 4 != 0) == (offset != 0));
+    core::mem::forget(s);
+    finish_one(it);
+    1 | (if length { 2 } else { 4 }) | (if offset == 0 { 8 } else { 0 })
+}
+
+/// C03.c: one step of `frame::Iter` on ARBITRARY bytes after a fixed first byte (frame type):
+/// never panics, always yields Some, and strictly fewer bytes remain afterwards (so iterating any
+/// payload terminates); after an error nothing remains.
+pub fn iter_step_total(first: u8, rest: [u8; 11], len: usize, small: bool) -> u32 {
+    if len == 0 || len > 12 {
+        return 0;
+    }
+    if small {
+        // every following varint is a one-byte varint (< 64): field positions are concrete
+        let b = &rest;
+        if (b[0] | b[1] | b[2] | b[3] | b[4] | b[5] | b[6] | b[7] | b[8] | b[9] | b[10]) >= 0x40 {
+            return 0;
+        }
+    }
+    let mut buf = [0u8; 12];
+    buf[0] = first;
+    buf[1..].copy_from_slice(&rest);
+    let Ok(mut it) = Iter::new(wire(&buf[..len])) else { panic!("non-empty payload rejected") };
+    let before = it.bytes.len();
+    let r = it.next();
+    let Some(r) = r else { panic!("Iter::next returned None on a non-empty payload") };
+    let after = it.bytes.len();
+    assert!(after < before);
+    let f = match &r {
+        Ok(fr) => {
+            let _ = fr.is_ack_eliciting();
+            1
+        }
+        Err(_) => {
+            assert!(after == 0);
+            assert!(it.next().is_none());
+            2
+        }
+    };
+    core::mem::forget(r);
+    core::mem::forget(it);
+    f
+}
